@@ -285,6 +285,7 @@ def get_attr(interp, o, attr, st, node):
     if isinstance(o, Lib):
         nm = canon(o.name + "." + attr)
         if nm in NP_CONST: return X.var(NP_CONST[nm])
+        if nm == "numpy.newaxis": return None
         return Lib(nm)
     if isinstance(o, Obj):
         h = getattr(o, "hook", None)
@@ -657,6 +658,27 @@ def _store_local(interp, o, t, v, st, aug, idx):
         o.stores.append(("opaque", Opaque("store at opaque index"))); return
     if all(to_x(i) is not None for i in idx):
         o.stores.append(((), tuple(to_x(i) for i in idx), v)); return
+    # block of rows  a[lo:hi] = M  of a 2-D array with concrete bounds: one row store per row
+    if len(idx) == 1 and len(o.shape) == 2 and isinstance(idx[0], tuple) and idx[0][0] == "slice" and idx[0][3] is None and o.shape[0].as_int() is not None:
+        R_ = o.shape[0].as_int()
+        lo_ = 0 if idx[0][1] is None else (to_x(idx[0][1]).as_int() if to_x(idx[0][1]) is not None else None)
+        hi_ = R_ if idx[0][2] is None else (to_x(idx[0][2]).as_int() if to_x(idx[0][2]) is not None else None)
+        V_ = (as_arr(v) if not isinstance(v, LocalArr) else local_to_arr(v)) if isinstance(v, (Arr, ArrParam, LocalArr)) else None
+        if lo_ is not None and hi_ is not None and V_ is not None and not is_opaque(V_):
+            if lo_ < 0: lo_ += R_
+            if hi_ < 0: hi_ += R_
+            lo_, hi_ = max(0, min(lo_, R_)), max(0, min(hi_, R_))
+            nrows = max(0, hi_ - lo_)
+            if V_.ndim == 2 and V_.axes[0][1].as_int() in (nrows, 1):
+                for r_ in range(nrows):
+                    row = arr_index(V_, X.const(r_ if V_.axes[0][1].as_int() == nrows else 0))
+                    o.stores.append(((), (X.const(lo_ + r_),), row))
+                return
+            if V_.ndim == 2 and V_.axes[0][1].as_int() is not None:
+                o.stores.append(("opaque", Mism(f"block store of {V_.axes[0][1]!r} rows into a slot of {nrows} rows"))); return
+            if V_.ndim == 1:
+                for r_ in range(nrows): o.stores.append(((), (X.const(lo_ + r_),), V_))
+                return
     # slice store
     if len(idx) == 1 and isinstance(idx[0], tuple) and idx[0][0] == "slice":
         lo, hi, step = idx[0][1:]
@@ -675,6 +697,9 @@ def _store_local(interp, o, t, v, st, aug, idx):
             o.stores.append((((tv, hi - lo),), (lo + X.var(tv),), Mism(f"slice store length {vc!r} into slot of length {(hi - lo)!r}"))); return
         o.stores.append((((tv, hi - lo),), (lo + X.var(tv),), subst_val(V_.body, {vv: X.var(tv)})))
         return
+    # block of rows  a[lo:hi] = M  of a 2-D array with concrete bounds: one row store per row
+    if len(idx) == 1 and len(o.shape) == 2 and isinstance(idx[0], tuple) and idx[0][0] == "slice" and idx[0][3] is None:
+        pass
     # whole-column store  a[:, k] = v  of a 2-D array (v a length-rows vector or a scalar)
     if len(idx) == 2 and len(o.shape) == 2 and isinstance(idx[0], tuple) and idx[0][0] == "slice" and idx[0][1] is None and idx[0][2] is None and idx[0][3] is None \
             and to_x(idx[1]) is not None and to_x(idx[1]).as_int() is not None:
